@@ -882,8 +882,11 @@ impl Add<Duration> for Time {
     type Output = Self;
 
     fn add(self, rhs: Duration) -> Self::Output {
-        let nanos = self.as_nanos() + rhs.as_nanos() as u64;
-        Self::from_nanos(nanos).unwrap()
+        let nanos = (self.nanoseconds as u128 + rhs.as_nanos()) % NANOS_PER_DAY as u128;
+        Self {
+            nanoseconds: nanos as u64,
+            offset: self.offset,
+        }
     }
 }
 impl AddAssign<Duration> for Time {
@@ -896,8 +899,12 @@ impl Sub<Duration> for Time {
     type Output = Self;
 
     fn sub(self, rhs: Duration) -> Self::Output {
-        let nanos = self.as_nanos() - rhs.as_nanos() as u64;
-        Self::from_nanos(nanos).unwrap()
+        let nanos = (self.nanoseconds as i128 - (rhs.as_nanos() % NANOS_PER_DAY as u128) as i128)
+            .rem_euclid(NANOS_PER_DAY as i128);
+        Self {
+            nanoseconds: nanos as u64,
+            offset: self.offset,
+        }
     }
 }
 impl SubAssign<Duration> for Time {
